@@ -83,7 +83,7 @@ def esi1(ctx, prog, cfg):
             r"call slice_take_last%s\(&self->right\)" % sfx, r"guard discr\(slice_take_last%s\(&self->right\)\)" % sfx,
             r"return Option::Some\{0: slice_take_last%s\(&self->right\) as Some\.0\}" % sfx, r"return Option::None\{\}"], cfg,
            "next_back: last of left, else last of right", "`next_back` of %s does not take the last element of `left` and only then of `right`" % ty, guards=True)
-        mm(ctx, "DEFAULT1", prog, "<%s as Default>::default" % ty, [r"call %s::empty\(\)" % ty.split("<")[0], r"return .*"], cfg, "default() = empty()",
+        mm(ctx, "DEFAULT1", prog, "<%s as Default>::default" % ty, [r"return %s::%s\{right: const, left: const\}" % (ty.split("<")[0], ty.split("<")[0])], cfg, "default() = empty()",
            "`default()` of %s is not `empty()`" % ty)
     mm(ctx, "CLONE1", prog, "<Iter<T> as Clone>::clone", [r"return Iter::Iter\{right: \(\*self\)\.right, left: \(\*self\)\.left\}"], cfg,
        "clone copies right<-right, left<-left", "`Iter::clone` does not copy both slice fields into the same positions: the clone does not continue from the same point")
@@ -117,12 +117,12 @@ def into1(ctx, prog, cfg):
        [r"call CircularBuffer::pop_back\(&self->inner\)", r"return CircularBuffer::pop_back\(&self->inner\)"], cfg, "next_back = inner.pop_back()",
        "IntoIter::next_back is not `self.inner.pop_back()`")
     mm(ctx, "INTO1", prog, "<IntoIter<N, T> as ExactSizeIterator>::len",
-       [r"call CircularBuffer::len\(&self->inner\)", r"return \(\*&self->inner\)\.size"], cfg, "len = inner.len()", "IntoIter::len is not `self.inner.len()`")
+       [r"return \(\*&self->inner\)\.size"], cfg, "len = inner.len()", "IntoIter::len is not `self.inner.len()`")
     mm(ctx, "INTO1", prog, "<IntoIter<N, T> as Iterator>::size_hint",
-       [r"call CircularBuffer::len\(&self->inner\)", r"return tuple::\{0: \(\*&self->inner\)\.size, 1: Option::Some\{0: \(\*&self->inner\)\.size\}\}"], cfg,
+       [r"return tuple::\{0: \(\*&self->inner\)\.size, 1: Option::Some\{0: \(\*&self->inner\)\.size\}\}"], cfg,
        "size_hint = (len, Some(len))", "IntoIter::size_hint is not `(inner.len(), Some(inner.len()))`")
     mm(ctx, "INTO1", prog, "IntoIter::new", [r"return IntoIter::IntoIter\{inner: inner\}"], cfg, "stores the buffer", "IntoIter::new does not store its argument as `inner`")
-    mm(ctx, "INTO1", prog, "<CircularBuffer<N, T> as IntoIterator>::into_iter", [r"call IntoIter::new\(self\)", r"return IntoIter::IntoIter\{inner: self\}"], cfg,
+    mm(ctx, "INTO1", prog, "<CircularBuffer<N, T> as IntoIterator>::into_iter", [r"return IntoIter::IntoIter\{inner: self\}"], cfg,
        "into_iter = IntoIter::new(self)", "into_iter does not move the buffer into the owning iterator")
     ii = prog.adts.get("IntoIter")
     ctx.check(ii is not None and len(ii["fields"]) == 1, "INTO1", "IntoIter", "no other state", ii["loc"] if ii else "?",
